@@ -24,6 +24,28 @@ CHECKS = {
                      'positions recomputed from the input text alone (only \\n, \\r\\n, \\r break lines; leading BOM zero width; '
                      'zero-width indentation error leaves sit at the next real leaf).',
                 note='TLC; recorder.', ref='2.4, 3 C03'),
+    'C05': dict(level=MC, tech='TLA+ B-spec ParserB (NodesConform at every closing node) + ConformTrace: TLC validates every node of real trees against the position automaton of the rule text',
+                text='ParserB (the parser engine transcribed on the real exported tables) is run by TLC on simulated valid / '
+                     'broken / arbitrary token streams with NodesConform checked in every state; the streams are rendered to '
+                     'text and, together with the standard text set, parsed by the real parser; TLC validates every non-error '
+                     'node of every real tree against the grammar text of its version (ConformTrace) under explicitly stated '
+                     'conventions; error nodes/leaves are accepted only in statement/block slots.',
+                note='TLC; EBNF reader; conventions listed in specs/ConformTrace.tla; ParserB-vs-real disagreement is reported '
+                     'as MODEL-DRIFT, never as a violation.', ref='2.3, 2.4, 3 C05'),
+    'C06': dict(level=MC, tech='TLA+ B-spec ParserB in generative (valid) mode: TLC enumerates sentences with derivations; replayed into the real strict and recovering parsers',
+                text='TLC enumerates every sentence of file_input and eval_input up to 4 (quick) / 5 (thorough) tokens with its '
+                     'derivation, plus simulated long sentences; each is rendered (two spellings) and the real strict parser '
+                     'must accept it and return exactly that derivation (after the documented conventions); the recovering '
+                     'parser must return the identical tree without error nodes.',
+                note='TLC; token classes (one representative per class with identical plans); renderer is self-checking '
+                     '(re-tokenised).', ref='2.3, 3 C06'),
+    'C07': dict(level=MC, tech='TLA+ Tree.C07 clauses evaluated by TLC on paired strict/recovering runs of the real parser; ParserB FilterInert/StrictNeverRecovers exhaustive',
+                text='On every text of the standard set and of rendered ParserB behaviours both real parsers are run; TLC '
+                     'checks: strict raises iff the recovered tree has an error node/leaf, identical trees otherwise, strict '
+                     'error leaf = first error in leaf order (value and position). Design: ParserB explored exhaustively in '
+                     'both modes (DEDENT filter inert before first error; strict mode never touches recovery state).',
+                note='TLC; a DEDENT that triggers the error is a virtual token absent from the tree: position only.',
+                ref='2.3, 3 C07'),
     'C08': dict(level=MC, tech='TLA+ spec Pgen/Ebnf (bisimulation with the position automaton of the grammar text, FIRST fixpoint, LL(1) verdict) checked by TLC on the exported real tables; GrammarEnum enumerates small grammars',
                 text='Exhaustive for the 9 shipped grammars (every rule, every DFA state, every plan entry, re-exported from the '
                      'live objects on every run): language equality of each real DFA with the rule text (SameFinal/SameArcs '
